@@ -26,8 +26,14 @@ ST = "esutil.stat.util."
 SUM = sp.Function("SUM")
 
 
+# rules that keep their verdict however the code is laid out (decided by term equality, effect analysis or dominance over
+# resolved calls); every other rule of this check is a template rule (vcheck.core.Check.obt)
+SEMANTIC = ('R18.clip', 'R18.cov', 'R18.wmom')
+
+
 def run(chk):
     repo = PyRepo()
+    chk.set_templates(repo, semantic=SEMANTIC)
     chk.explanation = MANIFEST["text"]
     chk.trusted = ["numpy reductions and searchsorted", "sympy normaliser", "CPython ast"]
     chk.floor = 40
